@@ -30,6 +30,9 @@ def prepare(w, cases):
         with open(rdoc) as f:
             want = json.load(f)["case"]
         cases[:] = [c for c in cases if c.id == want]
+    only = os.environ.get("VERIF_ONLY")  # development aid: a regular expression on case ids
+    if only:
+        cases[:] = [c for c in cases if re.search(only, c.id) or "twin" in c.id]
     jobs = []
     for c in cases:
         for rel, peg, flags in c.variants:
@@ -57,6 +60,10 @@ def explore(w, report, cases, prop, harness_re, nmax, per_job_timeout, family, n
     """Run the engine over the cases' harness packages; triage counterexamples.
     Returns aggregate stats."""
     good = [c for c in cases if not c.gen_errors]
+    only = os.environ.get("VERIF_ONLY")
+    if only:
+        good = [c for c in good if re.search(only, c.id) or "twin" in c.id]
+        cases = [c for c in cases if re.search(only, c.id) or "twin" in c.id]
     rdoc = os.environ.get("VERIF_REPLAY_DOC")
     if rdoc:
         with open(rdoc) as f:
